@@ -187,6 +187,11 @@ Theorem C02_literal_inventory :
   forallb (fun sq => near_one (snd sq * four_pi_b64) (2 # 10000000000)) mu0_mixed_sites = true.
 Proof. exact literal_inventory. Qed.
 Print Assumptions C02_literal_inventory.
+(* statement order of both setters, translated from the source: on every path both attributes are written once and no
+   call (validation, warning, ...) - nothing that can raise - lies between the two writes *)
+Theorem C02_setters_atomic : setters_atomic = true.
+Proof. exact setters_atomic_ok. Qed.
+Print Assumptions C02_setters_atomic.
 Print Assumptions C02_single_mu0_names.
 Print Assumptions C02_single_mu0_uses.
 Print Assumptions C02_setters_one_constant.
